@@ -326,6 +326,16 @@ func main() {
 			rep.Assumed = append(rep.Assumed, "axiom "+lm.Name)
 		}
 	}
+	{
+		var names []string
+		for n := range w.pureUsed {
+			names = append(names, n)
+		}
+		sort.Strings(names)
+		for _, n := range names {
+			rep.Assumed = append(rep.Assumed, "library function treated as pure and total, result unknown: "+n)
+		}
+	}
 	rep.WallS = time.Since(t0).Seconds()
 	if *out != "" {
 		data, _ := json.MarshalIndent(rep, "", " ")
